@@ -72,7 +72,7 @@ SubstChecks(m, r) ==
      <<"SubstEvalExact", (LeafKeyed(m) /\ UnfoldedRepl(m)) => Doit(r) = Subst(den, m)>>,
      <<"BoundIdentity", LawBoundIdentity(cur, m)>>,
      <<"Homomorphism", LawHomomorphism(cur, m)>>,
-     <<"FreeAfterSubst", FreeSyms(Doit(r)) = FreeSyms(r)>> >>
+     <<"FreeAfterSubst", SameFree(r, FreeSyms(Doit(r)), FreeSyms(r))>> >>
 Xreplace(m) == /\ Budget /\ Admissible(cur, m)
                /\ Become(Subst(cur, m), 1, SubstChecks(m, Subst(cur, m)))
 \* expr.subs(dict): SymPy applies the pairs one after the other; for maps whose replacement terms
@@ -84,7 +84,7 @@ OneMap(o, r) == << <<o, r>> >>
 Subs(o, r)  == /\ Budget /\ Admissible(cur, OneMap(o, r))
                /\ Become(Subst(cur, OneMap(o, r)), 1, SubstChecks(OneMap(o, r), Subst(cur, OneMap(o, r))))
 DoitA       == /\ Budget
-               /\ Become(den, 1, << <<"FreeUnderDoit", FreeSyms(den) = fs>>,
+               /\ Become(den, 1, << <<"FreeUnderDoit", SameFree(cur, FreeSyms(den), fs)>>,
                                    <<"DoitIdempotent", Doit(den) = den>>,
                                    <<"DoitUnfoldsAll", ~ Folded(den)>> >>)
 RebuildA    == /\ Budget /\ cur.k \in {"node", "pool"} /\ cur.at = <<>>
@@ -93,7 +93,7 @@ PickleA     == /\ Budget
                /\ Become(PickleRT(cur), 1, << <<"PickleIdentity", PickleRT(cur) = cur>> >>)
 CleanupA    == /\ Budget /\ cur.k = "pool"
                /\ Become(Cleanup(cur), 1, << <<"CleanupKeepsValue", Doit(Cleanup(cur)) = den>>,
-                                            <<"CleanupKeepsFree", FreeSyms(Cleanup(cur)) = fs>> >>)
+                                            <<"CleanupKeepsFree", SameFree(cur, FreeSyms(Cleanup(cur)), fs)>> >>)
 \* building a larger term costs no operation budget; in the exhaustive configurations it
 \* happens before the first operation only
 Nest(c)     == /\ (NestAnytime \/ n = 0) /\ cur.k # "sum"
@@ -146,5 +146,5 @@ InvDoitIdem    == LawDoitIdem(cur)
 StutterProp == [][(n' = n + 1 /\ (cur' = PickleRT(cur) \/ cur' = Rebuild(cur))) => cur' = cur]_vars
 \* cleanup never changes the value; evaluation never changes the free symbols
 ValueProp   == [][(cur.k = "pool" /\ cur' = Cleanup(cur)) => den' = den]_vars
-FreeProp    == [][cur' = den => fs' = fs]_vars
+FreeProp    == [][cur' = den => SameFree(cur, fs', fs)]_vars
 =============================================================================
